@@ -728,6 +728,14 @@ http_hdr_val_get_ex(const uint8_t *http_hdr, size_t hdr_size,
 		val = mem_chr_ptr(name, http_hdr, hdr_size, ':');
 		if (NULL == val)
 			return (ESPIPE);
+		/* Field name can not span lines: line without ':' is not a
+		 * field, empty line is the end of the headers. */
+		separator = mem_find_ptr_cstr(name, http_hdr, hdr_size, CRLF);
+		if (NULL != separator && separator < val) {
+			if (separator == name)
+				return (ESPIPE);
+			continue;
+		}
 		val ++; /* Move ptr from ':' to first value byte. */
 		/* Search for value end / next field name start,
 		 * skip all LWS = [CRLF] 1*( SP | HT )	*/
